@@ -38,6 +38,7 @@ KRange(N) == (0 - (N \div 2)) .. (((N + 1) \div 2) - 1)
 WellFormed(t) ==
     /\ t.n >= 1 /\ Len(t.d100) = t.n /\ Len(t.A) = t.n
     /\ \A i \in Images(t) : Len(t.A[i]) = Len(t.ent) /\ t.d100[i] >= 0 /\ t.d100[i] <= 30000
+    /\ \A i \in Images(t), e \in Entries(t) : t.A[i][e] <= Sat /\ t.A[i][e] >= -2000000      \* clamped by the projection
     /\ \A e \in Entries(t) : t.ent[e][1] \in KRange(t.W) /\ t.ent[e][2] \in KRange(t.H)
     /\ \A e \in 1 .. Len(t.ent) - 1 :
           LET a == t.ent[e]
@@ -47,6 +48,9 @@ WellFormed(t) ==
     /\ t.complete => Len(t.ent) = t.W * t.H
     /\ t.hascomp => /\ Len(t.d2) = t.n /\ Len(t.A2) = t.n /\ Len(t.A12) = t.n /\ Len(t.Asum) = t.n
                     /\ \A i \in Images(t) : Len(t.A2[i]) = Len(t.ent) /\ Len(t.A12[i]) = Len(t.ent) /\ Len(t.Asum[i]) = Len(t.ent)
+                    /\ \A i \in Images(t), e \in Entries(t) :
+                          /\ t.A2[i][e] <= Sat /\ t.A12[i][e] <= Sat /\ t.Asum[i][e] <= Sat
+                          /\ t.A2[i][e] >= -2000000 /\ t.A12[i][e] >= -2000000 /\ t.Asum[i][e] >= -2000000
 
 RealLinearDiagonal(t) == t.real /\ t.spread <= TolG /\ t.pw <= TolG /\ t.leak <= TolG /\ t.lin <= TolG
 
